@@ -153,7 +153,11 @@ def run_case(case, ctx):
     if nbad and nbad < n:
         order = tuple(multi.block_target(b, targets) for b in multi.split_text_blocks(mrec['stdout'])) if case['mode'] == 'text' else ()
         keys.append(h(tuple(a if s not in (0, 2, 3) else '.' for a, s in zip(archs, sts)), case['threads'], case['mode'], order))
-    return {'violations': out, 'keys': keys, 'counters': {'bad_targets': nbad, 'mode_' + case['mode']: 1}}
+    counters = {'bad_targets': nbad, 'mode_' + case['mode']: 1}
+    for pos, (a, st) in enumerate(zip(archs, sts)):
+        if st not in (0, 2, 3):
+            counters['failing %s at position %d/%d' % (a, pos + 1, n)] = 1
+    return {'violations': out, 'keys': keys, 'counters': counters}
 
 
 def shrink(case):
